@@ -41,13 +41,20 @@ type Elem struct {
 func (e Elem) String() string {
 	switch e.Kind {
 	case "custom-auth":
-		return "custom-auth(" + e.Key + ")"
+		return fmt.Sprintf("custom-auth(%q)", shortKey(e.Key))
 	case "size_limit":
 		return fmt.Sprintf("size_limit(%d)", e.Max)
 	case "invalid":
 		return "INVALID(" + e.Inv + ")"
 	}
 	return e.Kind
+}
+
+func shortKey(k string) string {
+	if len(k) > 40 {
+		return fmt.Sprintf("%s...(%d bytes)", k[:16], len(k))
+	}
+	return k
 }
 
 // Req is the generated client request.
@@ -71,11 +78,42 @@ func plabel(pos int) string { return fmt.Sprintf("p%d", pos) }
 // Rendering: YAML text (what an operator writes) and Go maps exactly as yaml.v3 would deliver them
 // ---------------------------------------------------------------------------------------------
 
+// q renders a YAML string scalar: plain when allowed and not asked otherwise, else double-quoted
+// with YAML escapes (so whitespace-only, multi-line and non-ASCII values survive exactly).
 func q(s string, quoted bool) string {
-	if quoted {
-		return `"` + s + `"`
+	plain := s != ""
+	for _, r := range s {
+		if !(r >= 'a' && r <= 'z' || r >= 'A' && r <= 'Z' || r >= '0' && r <= '9' || r == '-' || r == '_') {
+			plain = false
+		}
 	}
-	return s
+	if plain && !quoted {
+		return s
+	}
+	var b strings.Builder
+	b.WriteByte('"')
+	for _, r := range s {
+		switch {
+		case r == '"':
+			b.WriteString(`\"`)
+		case r == '\\':
+			b.WriteString(`\\`)
+		case r == '\n':
+			b.WriteString(`\n`)
+		case r == '\t':
+			b.WriteString(`\t`)
+		case r == '\r':
+			b.WriteString(`\r`)
+		case r == 0xa0:
+			b.WriteString(`\_`)
+		case r < 0x20 || r == 0x7f:
+			fmt.Fprintf(&b, `\x%02x`, r)
+		default:
+			b.WriteRune(r)
+		}
+	}
+	b.WriteByte('"')
+	return b.String()
 }
 
 func num(n int, asFloat bool) string {
